@@ -405,6 +405,19 @@ static void one_case(Ctx &c, Shape const &s, int gc, int f, int pat, int target_
       read_failed = cvm::get_error() != 0;
       bad = compare(g2, em, data_rel, bound_rel, true);
       observed = grid_json(g2);
+      if (bad.empty() && !read_failed) {
+        // ... and the restart form of that grid (which has no variables attached) read into another one built from the same file
+        std::ostringstream osr;
+        state_stream_format(osr, false);
+        g2.write_restart(osr);
+        colvar_grid_scalar g3(fn);
+        for (size_t k = 0; k < g3.data.size(); k++) g3.data[k] = -7.0;
+        std::istringstream isr(osr.str());
+        bool okr = bool(g3.read_restart(isr)) && cvm::get_error() == 0;
+        bad = compare(g3, em, std::max(data_rel, 2e-14), 1e-13, true);   // (the restart form carries 14 digits)
+        if (!okr && bad.empty()) bad.push_back("read-refused");
+        if (!bad.empty()) { bad[0] = "restart-form-of-a-grid-built-from-a-file:" + bad[0]; observed = grid_json(g3); }
+      }
     } else {
       colvar_grid_gradient g2(fn);
       read_failed = cvm::get_error() != 0;
